@@ -2430,6 +2430,17 @@ func (c *Checker) checkRecordPair(node ast.ExpressionNode) (n ast.ExpressionNode
 		return p, keyType, valueType
 	case *ast.DoubleSplatExpressionNode:
 		return c.checkRecordDoubleSplatExpression(p)
+	case *ast.PublicConstantNode, *ast.PrivateConstantNode:
+		// the parser accepts `{ Foo }` like `{ foo }`, but only
+		// local variables can be used as shorthand elements
+		c.addFailure(
+			fmt.Sprintf(
+				"invalid map element `%s`, only local variables can be used without a key, use `%s: %s`",
+				p.String(), p.String(), p.String(),
+			),
+			p.Location(),
+		)
+		return p, types.Untyped{}, types.Untyped{}
 	default:
 		panic(fmt.Sprintf("invalid map element node: %#v", node))
 	}
